@@ -35,6 +35,13 @@ CLAIMED = {
                      "transfer function; queue, slots, statuses and running/cancelled transfers are compared with the model after every event.",
                 note=BASE_TB + "Modelled not verified: atomicity of each handler (it holds SnapshotSender.mu); TransferStart/TransferQueued messages are not compared. "
                      "Props/C12 imports Mathlib.Data.List.Nodup and .Perm.Subperm for list lemmas."),
+    "C13": dict(category="proof", design="DESIGN.md §4 C13",
+                technique="Lean 4 theorems over a model of ScanPaths/TopLevelNames/buildPathResolver (names pairwise distinct for every base-name list, sortedness, counts, only plain entries, resolver inverse); real ScanPaths + resolver on materialised trees vs the model",
+                text="For every list of selected base names the top-level names are pairwise distinct (hence all rel paths), the item list is sorted, counts/totals add up, "
+                     "only plain files and directories are listed and the resolver maps each listed path back to its origin: Lean theorems about the executable model. "
+                     "Tie: seeded trees with colliding/prefix-shaped names, repeated and overlapping selections, symlinks, FIFOs, non-UTF-8 names are created on disk, the real "
+                     "ScanPaths (twice) and buildPathResolver run on them, every listed file is read, and the whole manifest incl. FNV ids is compared with the model's output.",
+                note=BASE_TB + "Modelled not verified: the OS directory walk (the model is given lstat facts read back from disk), os.Stat symlink resolution for selected paths, mtime granularity."),
     "C07": dict(category="proof", design="DESIGN.md §4 C07",
                 technique="Lean 4 confinement theorems over an element-stack model of filepath.Clean/Join and the receiver's validators; regenerated dominance facts; filepath differential; hostile-sender runs with sandbox snapshot",
                 text="Within_join and its corollaries prove, for arbitrary byte strings, that every path expression the receiver builds from a validated manifest "
